@@ -128,6 +128,21 @@ func main() {
 		sh := interp.NewShared()
 		sh.Seed()
 		var wg sync.WaitGroup
+		stopProg := make(chan struct{})
+		if *verbose > 0 {
+			go func() {
+				tk := time.NewTicker(10 * time.Second)
+				defer tk.Stop()
+				for {
+					select {
+					case <-stopProg:
+						return
+					case <-tk.C:
+						fmt.Fprintf(os.Stderr, "[%s %.0fs] %s\n", e, time.Since(t1).Seconds(), sh.Progress())
+					}
+				}
+			}()
+		}
 		for w := 0; w < *workers; w++ {
 			in, err := interp.NewInterp(prog, c, sh)
 			if err != nil {
@@ -141,6 +156,7 @@ func main() {
 			}()
 		}
 		wg.Wait()
+		close(stopProg)
 		res := entryResult{Entry: e, WallS: time.Since(t1).Seconds(), Samples: sh.Samples}
 		for _, f := range sh.Findings {
 			res.Findings = append(res.Findings, f)
@@ -170,7 +186,7 @@ func main() {
 			"paths": st.Paths, "paths_ok": st.PathsOK, "steps": st.Steps, "queries": st.Queries, "solver_s": st.SolverS,
 			"unknowns": st.Unknowns, "forks": st.Forks, "max_pc": st.MaxPC, "obligations": st.Obligations,
 			"discharged": st.Discharged, "obligation_kinds": obs, "reach": st.Reach, "funcs": funcs,
-			"solver_errors": st.SolverErrors, "load_s": loadS, "solver": *solver,
+			"solver_errors": st.SolverErrors, "portfolio_queries": st.AltQueries, "portfolio_decided": st.AltDecided, "load_s": loadS, "solver": *solver,
 		}
 		results = append(results, res)
 		if *verbose > 0 {
